@@ -22,7 +22,7 @@ pub struct PatT { name: String, prefix: String, sep: String, groups: Vec<GroupT>
 const INT_TEXTS: &[&str] = &["0", "-1", "42", "+7", "007", "9223372036854775807", "9223372036854775808", "-9223372036854775808", "-9223372036854775809", "4294967297", "", "12a", "1.0", " 5", "1e3", "-0"];
 const REAL_TEXTS: &[&str] = &["1.5", "-0.0", "1e5", "inf", "-inf", "NaN", ".5", "1.", "1e400", "--1", "2", "+3.25", "1e-400", "1.2.3", "infinity", "0x10", "1_0", "e5", ""];
 const WORD_TEXTS: &[&str] = &["a", "abc", "Zed", "x", "true", "false", "NULL", "\u{e5}ngstr\u{f6}m", "Jan"];
-const ANY_TEXTS: &[&str] = &["", " ", "  padded  ", "\tx\t", "plain text", "a\rb", "\r7", "cr at end\r", "x\u{85}y", "x\u{2028}y", "form\u{c}feed", "v\u{b}t", "\u{a0}nbsp\u{a0}", "42", "1:02:03", "2021-03-04 05:06:07", "2021-3-4 5:6:7", " 2021-03-04 05:06:07", "2021-13-04 05:06:07", "2021-02-30 00:00:00", "2021-03-04 24:00:00", "2021-03-04 05:06:60", "100:00:00", "1:2", "a:b:c", "-1:00:00", "2562047788016:00:00", "9223372036854775807:0:0", "0:9223372036854775807:0", "0:307445734561825861:0", "1:153722867280912931:5", "0:0:9223372036854775807", "true", "\u{1F600}"];
+const ANY_TEXTS: &[&str] = &["", " ", "  padded  ", "\tx\t", "plain text", "a\rb", "\r7", "cr at end\r", "x\u{85}y", "x\u{2028}y", "form\u{c}feed", "v\u{b}t", "\u{a0}nbsp\u{a0}", "42", "1:02:03", "2021-03-04 05:06:07", "2021-3-4 5:6:7", " 2021-03-04 05:06:07", "2021-13-04 05:06:07", "2021-02-30 00:00:00", "2021-03-04 24:00:00", "2021-03-04 05:06:60", "100:00:00", "1:2", "a:b:c", "-1:00:00", "2562047788016:00:00", "9223372036854775807:0:0", "0:9223372036854775807:0", "0:307445734561825861:0", "1:153722867280912931:5", "0:0:9223372036854775807", "true", "\u{1F600}", "\u{feff}bom", "\u{feff}"];
 const YEARS: &[&str] = &["2021", "1970", "0", "-1", "99999", "4294969317", "9999", "262143", "300000", "x"];
 const MONTHS_T: &[&str] = &["1", "12", "13", "0", "Jan", "sept", "June", "JUL", "foo", "4294967297", "-1", "02",
     // every month name the engine knows, in some letter case
@@ -171,6 +171,8 @@ pub fn gen_line(rng: &mut Rng, pats: &[PatT]) -> String {
         match rng.below(3) { 0 => { c2.remove(at); } 1 => { c2.insert(at, *rng.pick(&['x', ' ', ':', '9'])); } _ => { c2[at] = *rng.pick(&['X', '_', '0']); } }
         line = c2.into_iter().collect();
     }
+    // a byte-order mark in front of the line (concatenated files): a character of the line like any other
+    if rng.chance(1, 10) { line = format!("\u{feff}{}", line); }
     line
 }
 
